@@ -712,6 +712,14 @@ def gen_stream_extras(rng):
         # a reader subclass that overrides the constructor only
         d['own_ctor'] = True
 
+    if rng.chance(0.05):
+        # iterators asked for and dropped before the real iteration
+        d['probe_iter'] = True
+
+    if rng.chance(0.05):
+        # a throw-away reader peeked at the first records of the stream
+        d['prior_reader'] = rng.randint(1, 3)
+
     if rng.chance(0.08):
         # a raw / packet-like stream: reads inside header lines come up
         # short (takes effect on the simulated handles)
